@@ -4,6 +4,8 @@ from __future__ import annotations
 import ast
 from typing import Any
 
+from jinja2 import nodes as jnodes
+
 from ..astutil import Locals, call_name, names_in, norm, receivers, region, role_anon, short, where
 from ..cfg import walk_own
 from ..core import PKG, AnalysisError, Report
@@ -50,6 +52,9 @@ _UNITS = {fn for fns in ALLOWED.values() for fn in fns if not fn.startswith("*")
     "Project._build_models", "Project._build_api", "Project._build_setup_py", "Project._run_command", "Project._get_errors"}
 
 
+_TEMPLATE_UNITS = {fn for fns in ALLOWED.values() for fn in fns if fn.endswith(".jinja")}
+
+
 def run(rep: Report, ctx: Any) -> str:
     ix = ctx.py
     it, ji = ctx.flow
@@ -85,6 +90,15 @@ def run(rep: Report, ctx: Any) -> str:
                       "to the templates that generate code around a property - the same set of exported macros in their property templates (callers "
                       "test for a macro's presence and fall back to generic code when it is missing) and the same allowed parameter locations")
 
+    rep.rule("R16.8", "use_path_prefixes_for_title_model_names off means: a schema that has a title is named by that title alone.  On every path "
+                      "through ModelProperty.build (private helpers inlined, executed symbolically) that can be taken with the option off and "
+                      "`<schema>.title` set, the string handed to Class.from_string is computed from `<schema>.title` and from no other "
+                      "parameter (no parent name, no property key) - whatever else the path tests")
+    rep.rule("R16.9", "what the configuration file says is what the options are: the model the file is decoded into (ConfigFile and the models "
+                      "nested in its fields) switches on no pydantic facility that converts, rewrites or renames values while decoding - no "
+                      "rewriting option in model_config / class Config / Field(...) / StringConstraints(...) / constr(...) (number-to-string "
+                      "coercion, stripping, case folding, aliases), no validator function or method that can replace a value - and every "
+                      "field is declared with the type of the Config field it feeds (None apart)")
     cfgc = ix.cls("Config")
     cff = ix.cls("ConfigFile")
     fs = cfgc.methods.get("from_sources")
@@ -119,10 +133,13 @@ def run(rep: Report, ctx: Any) -> str:
                     reads[n.attr].add(_VALUE_SINKS[n.attr][0])
                 else:
                     reads[n.attr] |= _read_sites(f, allowed, callers, set())
+    # templates: the same attribution.  A template that Python renders on its own is what the documentation speaks about; a template that
+    # is only imported / included / extended (a macro library) works for the templates that load it.
+    loaders = _template_loaders(ctx.jinja)
     for k, (txt, attr, line, types) in ji.attr_reads.items():
         if attr in reads and cfgc.qual in types:
             n_reads += 1
-            reads[attr].add(k[0])
+            reads[attr] |= _template_read_sites(k[0], ALLOWED.get(attr, set()), set(ji.render_kwargs), loaders, set())
     rep.floor("config_reads", n_reads, 30)
     for fld in fields:
         allowed = ALLOWED.get(fld)
@@ -184,6 +201,8 @@ def run(rep: Report, ctx: Any) -> str:
     _r163_media_types(rep, ix)
     _r166_override_key(rep, ix, cfgc)
     _r167_switched_classes(rep, ix, ctx.jinja)
+    _r168_title_names(rep, ix)
+    _r169_file_model(rep, ix, cfgc, cff)
     # ---- R16.4 --------------------------------------------------------------------------------------------------------------
     _r164_tags(rep, ix, callers)
     _r164_builder(rep, ix)
@@ -194,15 +213,58 @@ def run(rep: Report, ctx: Any) -> str:
 
 # ---- where a value comes from / goes to, across locals and private helpers ------------------------------------------------------------
 
+def _private_name(n: str) -> bool:
+    return n.startswith("_") and not n.startswith("__")
+
+
 def _is_private(f: Any) -> bool:
-    return f.name.startswith("_") and not f.name.startswith("__")
+    """not part of anybody's interface: a function with a private name, or a (non-special) method of a class with a private name"""
+    return _private_name(f.name) or (f.cls is not None and _private_name(f.cls.name) and not f.name.startswith("__"))
+
+
+def _private_class_method(ix: Any, g: Any, c: ast.Call) -> Any:
+    """the method a call `<_PrivateClass>.m(...)` in g executes, the class being one of g's own module (`self.m` / `cls.m` inside a method
+    of such a class included); None for any other call"""
+    cn = call_name(c)
+    if "." not in cn:
+        return None
+    head, last = cn.rsplit(".", 1)
+    if last.startswith("__"):
+        return None
+    k = g.cls if head in ("self", "cls") and g.cls is not None else g.module.classes.get(head)
+    if k is None or not _private_name(k.name):
+        return None
+    return ix.find_method(k, last)
+
+
+def _helpers_of(ix: Any, g: Any) -> list[Any]:
+    """the functions that work for g alone as far as the interface is concerned: astutil.region at depth 1 (private names of g's module /
+    class) and the methods of private classes of g's module that g calls through the class"""
+    out = region(ix, g, 1)[1:]
+    seen = {h.qual for h in out} | {g.qual}
+    for c in ast.walk(g.node):
+        if isinstance(c, ast.Call):
+            h = _private_class_method(ix, g, c)
+            if h is not None and h.qual not in seen and h.module is g.module:
+                seen.add(h.qual)
+                out.append(h)
+    return out
+
+
+def _helper_called(ix: Any, g: Any, c: ast.Call, helpers: list[Any]) -> Any:
+    """the helper of g (one of _helpers_of) that call c executes, if any"""
+    h = _private_class_method(ix, g, c)
+    if h is not None:
+        return next((x for x in helpers if x.qual == h.qual), None)
+    last = call_name(c).rsplit(".", 1)[-1]
+    return next((x for x in helpers if x.name == last and _private_name(x.name)), None)
 
 
 def _callers(ix: Any) -> dict[str, list[Any]]:
     """private helper -> the functions that call it as one (the inverse of astutil.region at depth 1)"""
     out: dict[str, list[Any]] = {}
     for g in ix.all_functions:
-        for h in region(ix, g, 1)[1:]:
+        for h in _helpers_of(ix, g):
             if g.qual != h.qual:
                 out.setdefault(h.qual, []).append(g)
     return out
@@ -226,7 +288,46 @@ def _read_sites(f: Any, allowed: set[str], callers: dict[str, list[Any]], seen: 
     return out or {short(f)}
 
 
+def _template_loaders(jx: Any) -> dict[str, set[str]]:
+    """template -> the templates that load it (`import` / `from ... import` / `include` / `extends`).  A name computed at run time
+    (`"property_templates/" + property.template`) stands for every template it can name: those that start with its constant prefix,
+    every template when there is none."""
+    out: dict[str, set[str]] = {}
+    for ti in jx.templates.values():
+        for n in ti.tree.find_all((jnodes.Import, jnodes.FromImport, jnodes.Include, jnodes.Extends)):
+            t = n.template
+            names: list[str]
+            if isinstance(t, jnodes.Const) and isinstance(t.value, str):
+                names = [t.value]
+            elif isinstance(t, (jnodes.List, jnodes.Tuple)) and all(isinstance(x, jnodes.Const) for x in t.items):
+                names = [x.value for x in t.items]
+            else:
+                head = t
+                while isinstance(head, (jnodes.Add, jnodes.Concat)):
+                    head = head.left if isinstance(head, jnodes.Add) else head.nodes[0]
+                prefix = head.value if isinstance(head, jnodes.Const) and isinstance(head.value, str) and head is not t else ""
+                names = [x for x in jx.templates if x.startswith(prefix)]
+            for name in names:
+                if name != ti.name:
+                    out.setdefault(name, set()).add(ti.name)
+    return out
+
+
+def _template_read_sites(t: str, allowed: set[str], rendered: set[str], loaders: dict[str, set[str]], seen: set[str]) -> set[str]:
+    """the template(s) a read inside template t belongs to: t itself when it is a documented reader (of this or of another option) or is
+    rendered on its own, else - t being a library of macros / a fragment - whatever loads it"""
+    if t in allowed or t in _TEMPLATE_UNITS or t in rendered or t in seen:
+        return {t}
+    out: set[str] = set()
+    for u in loaders.get(t, ()):
+        out |= _template_read_sites(u, allowed, rendered, loaders, seen | {t})
+    return out or {t}
+
+
 def _calls_of(g: Any, h: Any) -> list[ast.Call]:
+    if not _private_name(h.name):  # a method of a private class: called through the class
+        return [c for c in ast.walk(g.node) if isinstance(c, ast.Call) and call_name(c).rsplit(".", 1)[-1] == h.name and
+                call_name(c).rsplit(".", 1)[0] in ({h.cls.name} | ({"self", "cls"} if g.cls is h.cls else set()))]
     return [c for c in ast.walk(g.node) if isinstance(c, ast.Call) and call_name(c).rsplit(".", 1)[-1] == h.name]
 
 
@@ -267,7 +368,7 @@ def _reaches_only(ix: Any, f: Any, n: ast.AST, sink: Any, depth: int = 3) -> boo
         return all(_reaches_only(ix, f, m, sink, depth - 1) for m in uses)
     call = par if isinstance(par, ast.Call) else _parent(f.node, par) if isinstance(par, ast.keyword) else None
     if isinstance(call, ast.Call) and call.func is not n:
-        h = next((h for h in region(ix, f, 1)[1:] if h.name == call_name(call).rsplit(".", 1)[-1]), None)
+        h = _helper_called(ix, f, call, _helpers_of(ix, f))
         if h is not None:
             pname = next((k for k, v in _bind_call(call, h).items() if v is n), None)
             if pname is None or pname not in _param_names(h):
@@ -643,9 +744,7 @@ def _r167_switched_classes(rep: Report, ix: Any, jx: Any) -> None:
 
     def locations_of(name: str) -> set[str] | None:
         al = ix.find_classvar(classes[name], "_allowed_locations")
-        if al is None or not isinstance(al[1], (ast.Set, ast.List, ast.Tuple)):
-            return None
-        return {norm(x).rsplit(".", 1)[-1] for x in al[1].elts}
+        return _const_set(ix, al[0].module, al[1]) if al is not None else None
 
     for a, b in pairs:
         # what a template offers to the templates that import it: Jinja exports the top-level names that do not start with `_`
@@ -659,6 +758,263 @@ def _r167_switched_classes(rep: Report, ix: Any, jx: Any) -> None:
         rep.check(la == lb, "R16.7", f"{option}::{b}|{a}::same-allowed-locations",
                   f"{a} ({option} on) and {b} (off) are not allowed in the same parameter locations ({sorted(la ^ lb)}): a document accepted under "
                   "one setting is rejected under the other", where=f"{PKG}/parser/properties", lhs=sorted(la), rhs=sorted(lb))
+
+
+def _const_set(ix: Any, m: Any, e: ast.AST, depth: int = 8) -> set[str] | None:
+    """the members of a constant collection of enumeration members, evaluated: a display (`*x` spliced in), `set` / `frozenset` / `tuple` /
+    `list` of one, a module-level constant or a class constant (of this or of an imported module) standing for its value, `|` `-` `&` `^` of
+    two.  A member is named by its last component (`oai.ParameterLocation.QUERY` -> QUERY).  None when anything else takes part."""
+    if depth <= 0:
+        return None
+    if isinstance(e, (ast.Set, ast.List, ast.Tuple)):
+        out: set[str] = set()
+        for x in e.elts:
+            if isinstance(x, ast.Starred):
+                part = _const_set(ix, m, x.value, depth - 1)
+                if part is None:
+                    return None
+                out |= part
+            elif isinstance(x, ast.Attribute):
+                out.add(x.attr)
+            else:
+                return None
+        return out
+    if isinstance(e, ast.Call) and call_name(e) in ("set", "frozenset", "tuple", "list") and not e.keywords and len(e.args) <= 1:
+        return _const_set(ix, m, e.args[0], depth - 1) if e.args else set()
+    if isinstance(e, ast.BinOp) and isinstance(e.op, (ast.BitOr, ast.Sub, ast.BitAnd, ast.BitXor)):
+        a, b = _const_set(ix, m, e.left, depth - 1), _const_set(ix, m, e.right, depth - 1)
+        if a is None or b is None:
+            return None
+        return a | b if isinstance(e.op, ast.BitOr) else a - b if isinstance(e.op, ast.Sub) else a & b if isinstance(e.op, ast.BitAnd) else a ^ b
+    if isinstance(e, (ast.Name, ast.Attribute)):
+        r = ix.resolve(m, norm(e))
+        if r and r[0] == "var":
+            mod, n = r[1]
+            return _const_set(ix, mod, mod.variables[n], depth - 1)
+        if r and r[0] == "classvar":
+            cv = ix.find_classvar(*r[1])
+            return _const_set(ix, cv[0].module, cv[1], depth - 1) if cv else None
+    return None
+
+
+# ---- R16.8: titled models without path prefixes ----------------------------------------------------------------------------------------
+
+def _given_truthy(e: ast.AST, text: str) -> ast.AST:
+    """e simplified by the knowledge that the expression spelled `text` is truthy: `text or x` is `text`, `a if text else b` is `a`"""
+    import copy
+
+    class T(ast.NodeTransformer):
+        def visit_BoolOp(self, n: ast.BoolOp) -> ast.AST:
+            self.generic_visit(n)
+            if isinstance(n.op, ast.Or):
+                for i, v in enumerate(n.values):
+                    if norm(_unbool(v)) == text:
+                        return v if i == 0 else ast.copy_location(ast.BoolOp(op=ast.Or(), values=n.values[:i + 1]), n)
+            return n
+
+        def visit_IfExp(self, n: ast.IfExp) -> ast.AST:
+            self.generic_visit(n)
+            t = _unbool(n.test)
+            if norm(t) == text:
+                return n.body
+            if isinstance(t, ast.UnaryOp) and isinstance(t.op, ast.Not) and norm(_unbool(t.operand)) == text:
+                return n.orelse
+            return n
+
+    return T().visit(copy.deepcopy(e))
+
+
+def _r168_title_names(rep: Report, ix: Any) -> None:
+    """The README: with the option off the generator 'will use the title property of any object that has it set without prefixing'.  The
+    class of a model is minted by Class.from_string from one string; which string is decided in ModelProperty.build.  Decided on values and
+    path conditions: the function is executed symbolically; wherever Class.from_string is reached on a path that does not exclude
+    `option off and <schema>.title set`, the string must be made of the title only.  A proxy for 'has a title' (comparing the title with
+    the fallback name, testing its length, ...) leaves such a path open with a prefixed value."""
+    option = "use_path_prefixes_for_title_model_names"
+    f = ix.func("parser.properties.model_property.ModelProperty.build")
+    schema_params = [p.arg for p in f.params if p.annotation is not None and norm(p.annotation).rsplit(".", 1)[-1].strip("'\"") == "Schema"]
+    rep.require(len(schema_params) == 1, "the schema parameter of ModelProperty.build (the one annotated as Schema)")
+    title = f"{schema_params[0]}.title"
+    others = {p.arg for p in f.params} - {schema_params[0]}
+    sx = SymExec(ix, watch=lambda c: call_name(c).endswith("Class.from_string"), stop_at_hit=True)
+    sx.run(f)
+    hits = [(c, call, g) for c, call, g in sx.hits if consistent(c)]
+    rep.require(hits, "a call of Class.from_string reached from ModelProperty.build")
+    bad: list[tuple[str, str]] = []
+    n = 0
+    for conds, call, g in hits:
+        v0 = {k.arg: k.value for k in call.keywords}.get("string", call.args[0] if call.args else None)
+        rep.require(v0 is not None, "the string handed to Class.from_string")
+        for st, v in sx.values(v0, State(dict(sx.hit_env.get(id(call), {})), tuple(conds)), g, 1):  # a helper in argument position is inlined
+            for ac, av in alternatives(v):
+                allc = tuple(st.conds) + tuple(ac)
+                atoms: list = []
+                for e, _ in allc:
+                    _atoms(e, atoms)
+                premise = {a: False for a in atoms if a[0] == "truthy" and a[1].rsplit(".", 1)[-1] == option}
+                premise[("truthy", title)] = True
+                premise[("none", title)] = False
+                premise[("empty", title)] = False
+                if not possible(allc, premise):
+                    continue
+                n += 1
+                av = _given_truthy(av, title)
+                rep.require(UNKNOWN not in names_in(av), f"the value of the class string on the path `{conds_text(allc)[:160]}`")
+                uses_title = any(isinstance(x, ast.Attribute) and norm(x) == title for x in ast.walk(av))
+                foreign = sorted(_free_names(av) & others)
+                if not uses_title or foreign:
+                    bad.append((norm(av)[:120], conds_text(allc)[:200]))
+    rep.floor("titled_model_name_paths", n, 1)
+    rep.check(not bad, "R16.8", f"{short(f)}::titled-model-named-by-its-title-when-prefixes-are-off",
+              f"with {option} off a schema that has a title can still be named from something else than its title "
+              f"({'; '.join(f'{v} when {c}' for v, c in bad[:2])}): the option does not have its documented effect for those schemas",
+              where(f, f.node), lhs=bad[:4] or title, rhs=f"a string computed from {title} alone whenever the option is off and {title} is set")
+
+
+# ---- R16.9: the configuration file is decoded as written --------------------------------------------------------------------------------
+
+# pydantic facilities that make the decoded value differ from the written one (model_config / class Config / Field / StringConstraints /
+# constr keywords), from pydantic's documentation
+_REWRITING_OPTIONS = {
+    "coerce_numbers_to_str": "numbers are turned into text (1.10 becomes '1.1')",
+    "str_strip_whitespace": "whitespace is stripped", "strip_whitespace": "whitespace is stripped",
+    "str_to_lower": "text is lower-cased", "to_lower": "text is lower-cased",
+    "str_to_upper": "text is upper-cased", "to_upper": "text is upper-cased",
+    "alias": "the option is read under another key", "validation_alias": "the option is read under another key",
+    "alias_generator": "options are read under computed keys",
+    "val_json_bytes": "bytes are re-encoded", "ser_json_bytes": "bytes are re-encoded",
+}
+_VALIDATOR_WRAPPERS = ("BeforeValidator", "AfterValidator", "PlainValidator", "WrapValidator")
+_VALIDATOR_DECORATORS = ("field_validator", "model_validator", "validator", "root_validator")
+
+
+def _plain_type(ann: ast.AST | None) -> str:
+    """an annotation as a type, None apart: `Optional[T]` / `Union[T, None]` / `T | None` is T, `Annotated[T, ...]` is T, typing's
+    capitalised generics are the builtins"""
+    if ann is None:
+        return "?"
+    if isinstance(ann, ast.Constant) and isinstance(ann.value, str):
+        try:
+            ann = ast.parse(ann.value, mode="eval").body
+        except SyntaxError:
+            return ann.value
+    if isinstance(ann, ast.Subscript):
+        head = norm(ann.value).rsplit(".", 1)[-1]
+        args = list(ann.slice.elts) if isinstance(ann.slice, ast.Tuple) else [ann.slice]
+        if head == "Optional":
+            return _plain_type(args[0])
+        if head == "Annotated":
+            return _plain_type(args[0])
+        if head == "Union":
+            rest = sorted(_plain_type(a) for a in args if not (isinstance(a, ast.Constant) and a.value is None))
+            return rest[0] if len(rest) == 1 else "Union[" + ", ".join(rest) + "]"
+        low = {"List": "list", "Dict": "dict", "Set": "set", "Tuple": "tuple", "FrozenSet": "frozenset", "Type": "type"}.get(head, head)
+        return f"{low}[{', '.join(_plain_type(a) for a in args)}]"
+    if isinstance(ann, ast.BinOp) and isinstance(ann.op, ast.BitOr):
+        parts, todo = [], [ann]
+        while todo:
+            x = todo.pop()
+            if isinstance(x, ast.BinOp) and isinstance(x.op, ast.BitOr):
+                todo += [x.right, x.left]
+            elif not (isinstance(x, ast.Constant) and x.value is None):
+                parts.append(_plain_type(x))
+        parts.sort()
+        return parts[0] if len(parts) == 1 else "Union[" + ", ".join(parts) + "]"
+    if isinstance(ann, ast.Constant) and ann.value is None:
+        return "None"
+    return norm(ann).rsplit(".", 1)[-1]
+
+
+def _r169_file_model(rep: Report, ix: Any, cfgc: Any, cff: Any) -> None:
+    """R16.1 follows a value from the ConfigFile object to the Config object; this is the step before: from the text of the file to the
+    ConfigFile object.  pydantic decodes a plainly annotated field as written (text stays text, a number is not text); every facility that
+    changes that is switched on by something visible in the class: an option in its configuration, in a Field / constraint object of a
+    field's annotation or default, a validator.  Models nested in field annotations (ClassOverride) are decoded by the same rules."""
+    models, todo = [], [cff]
+    while todo:
+        k = todo.pop()
+        if k.qual in {m.qual for m in models}:
+            continue
+        models.append(k)
+        for c in ix.mro(k):
+            for ann in c.fields.values():
+                for x in ast.walk(ann) if ann is not None else []:
+                    if isinstance(x, (ast.Name, ast.Attribute)):
+                        r = ix.resolve(c.module, norm(x))
+                        if r and r[0] == "class" and any(b.rsplit(".", 1)[-1] == "BaseModel" for b in ix.ext_bases(r[1])):
+                            todo.append(r[1])
+    n = 0
+    for k in models:
+        bad: list[str] = []
+        for c in ix.mro(k):
+            for st in c.node.body:
+                # the model's own configuration
+                if isinstance(st, (ast.Assign, ast.AnnAssign)) and st.value is not None:
+                    tg = st.targets[0] if isinstance(st, ast.Assign) else st.target
+                    if isinstance(tg, ast.Name) and tg.id == "model_config":
+                        v = st.value
+                        pairs = [(kw.arg or "**", kw.value) for kw in v.keywords] if isinstance(v, ast.Call) else \
+                            [(key.value if isinstance(key, ast.Constant) else "**", val) for key, val in zip(v.keys, v.values)] if isinstance(v, ast.Dict) else [("**", v)]
+                        bad += [f"model_config {o}" for o, val in pairs if (o in _REWRITING_OPTIONS or o == "**") and not (isinstance(val, ast.Constant) and val.value in (False, None))]
+                elif isinstance(st, ast.ClassDef) and st.name == "Config":
+                    bad += [f"Config.{t.id}" for s2 in st.body if isinstance(s2, ast.Assign) for t in s2.targets if isinstance(t, ast.Name) and t.id in _REWRITING_OPTIONS
+                            and not (isinstance(s2.value, ast.Constant) and s2.value.value in (False, None))]
+                elif isinstance(st, (ast.FunctionDef, ast.AsyncFunctionDef)):
+                    bad += [f"@{call_name(d) if isinstance(d, ast.Call) else norm(d)} {st.name}" for d in st.decorator_list
+                            if (call_name(d) if isinstance(d, ast.Call) else norm(d)).rsplit(".", 1)[-1] in _VALIDATOR_DECORATORS]
+                # each field: what its annotation and its default carry
+                if isinstance(st, ast.AnnAssign) and isinstance(st.target, ast.Name):
+                    n += 1
+                    for x in [y for part in (st.annotation, st.value) if part is not None for y in ast.walk(part)]:
+                        if not isinstance(x, ast.Call):
+                            continue
+                        last = call_name(x).rsplit(".", 1)[-1]
+                        if last in _VALIDATOR_WRAPPERS:
+                            bad.append(f"{st.target.id}: {last}(...)")
+                        bad += [f"{st.target.id}: {last}({kw.arg or '**'}=...)" for kw in x.keywords if (kw.arg in _REWRITING_OPTIONS or kw.arg is None)
+                                and not (isinstance(kw.value, ast.Constant) and kw.value.value in (False, None))]
+        rep.check(not bad, "R16.9", f"{k.name}::decoded-as-written",
+                  f"the configuration file is not decoded as written: {'; '.join(bad[:4])}" +
+                  "".join(f" - {_REWRITING_OPTIONS[o]}" for o in _REWRITING_OPTIONS if any(o in b for b in bad[:1])),
+                  where=f"{k.module.rel}:{k.node.lineno}", lhs=bad or "plain fields", rhs="no converting / rewriting / renaming facility")
+    rep.floor("config_file_fields", n, 9)
+    # the model is given what the file's parser returned, nothing edited in between
+    for lf in [m for m in cff.methods.values() if m.kind in ("staticmethod", "classmethod") and not m.name.startswith("_")
+               and m.node.returns is not None and cff.name in norm(m.node.returns)]:
+        edited: list[tuple[str, str]] = []
+        rets = [(c, v) for c, v in SymExec(ix).run(lf) if consistent(c)]
+        rep.require(rets, f"a path through {short(lf)} that returns")
+        makers = {cff.name} | ({lf.params[0].arg} if lf.kind == "classmethod" and lf.params else set())
+        for conds, rv in rets:
+            data = None
+            if isinstance(rv, ast.Call) and call_name(rv) in makers and not rv.args and len(rv.keywords) == 1 and rv.keywords[0].arg is None:
+                data = rv.keywords[0].value  # ConfigFile(**data)
+            elif isinstance(rv, ast.Call) and isinstance(rv.func, ast.Attribute) and rv.func.attr in ("model_validate", "parse_obj") and \
+                    norm(rv.func.value) in makers and len(rv.args) == 1 and not rv.keywords:
+                data = rv.args[0]
+            for ac, dv in alternatives(data) if data is not None else [((), rv)]:
+                if not consistent(tuple(conds) + tuple(ac)):
+                    continue
+                while isinstance(dv, ast.Call) and call_name(dv) == "dict" and len(dv.args) == 1 and not dv.keywords:
+                    dv = dv.args[0]
+                if isinstance(dv, ast.Dict) and not dv.keys:
+                    continue  # nothing in the file: no options
+                r = ix.resolve(lf.module, call_name(dv)) if isinstance(dv, ast.Call) else None
+                parsed = data is not None and isinstance(dv, ast.Call) and UNKNOWN not in names_in(dv.func) and (r is None or r[0] == "ext")
+                if not parsed:
+                    edited.append((norm(dv)[:120], conds_text(tuple(conds) + tuple(ac))[:160]))
+        rep.check(not edited, "R16.9", f"{short(lf)}::model-is-given-what-the-parser-returned",
+                  f"{cff.name} is not built from the parsed file itself ({'; '.join(f'{v} when {c or chr(39) + 'always' + chr(39)}' for v, c in edited[:2])}): "
+                  "values can be changed between the file and the options", where(lf, lf.node), lhs=edited[:4] or "parsed file",
+                  rhs=f"{cff.name}(**<what the JSON / YAML parser returned>)")
+    # the type a field is decoded as is the type the option has
+    file_fields, cfg_fields = ix.all_fields(cff), ix.all_fields(cfgc)
+    for fld, ann in file_fields.items():
+        if fld in cfg_fields:
+            a, b = _plain_type(ann), _plain_type(cfg_fields[fld])
+            rep.check(a == b, "R16.9", f"ConfigFile.{fld}::type-of-the-option", f"the configuration file accepts `{a}` for `{fld}` while the option is `{b}`: "
+                      "a value of another type is accepted and converted (or passed on as it is) instead of being refused",
+                      where=f"{cff.module.rel}:{cff.node.lineno}", lhs=a, rhs=b)
 
 
 def _exported_names(tree: Any) -> set[str]:
@@ -812,10 +1168,11 @@ def _write_events(ix: Any, f: Any, stack: set[str]) -> int:
     if f.qual in stack or len(stack) > 6:
         return 0
     n = sum(1 for c in ast.walk(f.node) if isinstance(c, ast.Call) and _text_write(c))
-    helpers = {h.name: h for h in region(ix, f, 1)[1:]}
+    helpers = _helpers_of(ix, f)
     for c in ast.walk(f.node):
-        if isinstance(c, ast.Call) and call_name(c).rsplit(".", 1)[-1] in helpers:
-            n += _write_events(ix, helpers[call_name(c).rsplit(".", 1)[-1]], stack | {f.qual})
+        h = _helper_called(ix, f, c, helpers) if isinstance(c, ast.Call) else None
+        if h is not None:
+            n += _write_events(ix, h, stack | {f.qual})
     return n
 
 
@@ -1214,9 +1571,10 @@ def _element(it_: ast.AST, idx: int | None = None) -> ast.AST:
 class SymExec:
     MAX_STATES = 256
 
-    def __init__(self, ix: Any, watch: Any = None, inline_depth: int = 2, record: bool = False) -> None:
+    def __init__(self, ix: Any, watch: Any = None, inline_depth: int = 2, record: bool = False, stop_at_hit: bool = False) -> None:
         self.ix = ix
         self.watch = watch
+        self.stop_at_hit = stop_at_hit  # a path is followed up to the first statement that makes a watched call (what comes after is not asked for)
         self.inline_depth = inline_depth
         self.recorded: list[ast.AST] | None = [] if record else None  # every expression a statement evaluates (tests included), substituted
         self.hits: list[tuple[tuple[Cond, ...], ast.Call, Any]] = []  # (path condition, watched call with locals substituted, function)
@@ -1249,11 +1607,17 @@ class SymExec:
             for h in self.ix.all_functions:
                 if h.parent is not None and h.parent.qual in scopes and h.qual not in scopes:
                     known.setdefault(h.name, h)
-            for h in region(self.ix, f, 1)[1:]:
-                known.setdefault("." + h.name, h)
+            for h in _helpers_of(self.ix, f):
+                if _private_name(h.name):
+                    known.setdefault("." + h.name, h)
             self._helpers[f.qual] = known
         cn = call_name(call)
-        return (known.get(cn) if "." not in cn else None) or known.get("." + cn.rsplit(".", 1)[-1])
+        h = (known.get(cn) if "." not in cn else None) or known.get("." + cn.rsplit(".", 1)[-1])
+        if h is None:
+            h = _private_class_method(self.ix, f, call)  # `<_PrivateClass>.m(...)`
+            if h is not None and (h.module is not f.module or h.qual == f.qual):
+                h = None
+        return h
 
     def values(self, v: ast.AST, s: State, f: Any, depth: int) -> list[tuple[State, ast.AST]]:
         """the (already substituted) value, a call to a helper of f (private function / method, closure) replaced by what the helper
@@ -1280,6 +1644,8 @@ class SymExec:
         bound.update(_bind_call(v, h))
         for n in names:
             bound.setdefault(n, _unknown())
+        if h.kind == "classmethod" and h.cls is not None and h.params and isinstance(v.func, ast.Attribute) and norm(v.func.value) == h.cls.name:
+            bound[h.params[0].arg] = ast.Name(id=h.cls.name, ctx=ast.Load())  # called through the class itself: `cls` is that class
         if h.kind == "method" and f.kind == "method" and isinstance(v.func, ast.Attribute) and norm(v.func.value) == f.params[0].arg:
             # the same object: what the caller knows about its attributes holds in the helper
             bound.update({f"{h.params[0].arg}.{k.split('.', 1)[1]}": val for k, val in s.env.items() if k.startswith(f.params[0].arg + ".")})
@@ -1302,14 +1668,17 @@ class SymExec:
                 raise AnalysisError(f"symbolic execution of {short(f)}: more than {self.MAX_STATES} paths")
         return states
 
-    def _note(self, st: ast.stmt, s: State, f: Any) -> None:
+    def _note(self, st: ast.stmt, s: State, f: Any) -> bool:
         if self.watch is None:
-            return
+            return False
+        hit = False
         for n in walk_own(st):
             if isinstance(n, ast.Call) and self.watch(n):
                 call = substitute(n, s.env)
                 self.hits.append((s.conds, call, f))
                 self.hit_env[id(call)] = s.env
+                hit = True
+        return hit
 
     def _forget(self, s: State, cell: str) -> None:
         s.env[cell] = _unknown()
@@ -1342,10 +1711,31 @@ class SymExec:
                     todo += [c.func.attr for c in ast.walk(m.node) if isinstance(c, ast.Call) and isinstance(c.func, ast.Attribute)
                              and isinstance(c.func.value, ast.Name) and c.func.value.id == its]
 
-    def _bind(self, t: ast.AST, val: ast.AST, s: State) -> None:
+    def _record(self, val: ast.AST, f: Any) -> dict[str, ast.AST] | None:
+        """field -> value of `<Class>(...)` when Class is a plain record of the package (NamedTuple / dataclass / attrs class: annotated
+        fields, no constructor or post-init hook of its own), whose attributes are what it was constructed with"""
+        if f is None or not isinstance(val, ast.Call) or any(isinstance(a, ast.Starred) for a in val.args) or any(k.arg is None for k in val.keywords):
+            return None
+        r = self.ix.resolve(f.module, call_name(val))
+        if not r or r[0] != "class":
+            return None
+        k = r[1]
+        fields = list(self.ix.all_fields(k))
+        if not fields or any(self.ix.find_method(k, m) is not None for m in ("__init__", "__new__", "__post_init__", "__attrs_post_init__")):
+            return None
+        if any(isinstance(d, ast.Call) and any(kw.arg in ("converter", "factory", "default_factory") for kw in d.keywords)
+               for c in self.ix.mro(k) for d in c.field_defaults.values()):
+            return None
+        out = {fields[i]: a for i, a in enumerate(val.args) if i < len(fields)}
+        out.update({kw.arg: kw.value for kw in val.keywords if kw.arg in fields})
+        return out
+
+    def _bind(self, t: ast.AST, val: ast.AST, s: State, f: Any = None) -> None:
         if isinstance(t, ast.Name):
             self._forget(s, t.id)
             s.env[t.id] = val
+            for fld, fv in (self._record(val, f) or {}).items():
+                s.env[f"{t.id}.{fld}"] = fv  # a record just built: each attribute is the argument it was given
         elif isinstance(t, ast.Attribute) and isinstance(t.value, ast.Name):
             self._forget(s, f"{t.value.id}.{t.attr}")
             s.env[f"{t.value.id}.{t.attr}"] = val
@@ -1374,7 +1764,8 @@ class SymExec:
             self._bind(t, _element(it_), s)
 
     def _stmt(self, st: ast.stmt, s: State, rets: list, f: Any, depth: int) -> list[State]:
-        self._note(st, s, f)
+        if self._note(st, s, f) and self.stop_at_hit:
+            return []
         if self.recorded is not None:
             own = [getattr(st, a, None) for a in ("test", "value", "iter", "subject", "exc")] + [i.context_expr for i in getattr(st, "items", []) or []]
             self.recorded += [substitute(e, s.env) for e in own if isinstance(e, ast.AST)]
@@ -1387,7 +1778,7 @@ class SymExec:
                 s2 = s2.fork()
                 self._method_effects(st, s2, f)
                 for t in targets:
-                    self._bind(t, val, s2)
+                    self._bind(t, val, s2, f)
                 out.append(s2)
             return out
         if isinstance(st, ast.AugAssign):
@@ -1472,17 +1863,35 @@ class SymExec:
 
 
 # -- path conditions --------------------------------------------------------------------------------------------------------------------
-# atoms: ("none", X) for `X is None`, ("truthy", X) for anything else used as a test; the one axiom is  X is None  =>  not X
+# atoms: ("none", X) for `X is None`, ("empty", X) for `X == <empty literal>`, ("truthy", X) for anything else used as a test; the axioms are
+# X is None  =>  not X   and   X == <empty>  =>  not X and X is not None
+
+def _unbool(e: ast.AST) -> ast.AST:
+    """`bool(x)` used as a test is the test `x`"""
+    while isinstance(e, ast.Call) and isinstance(e.func, ast.Name) and e.func.id == "bool" and len(e.args) == 1 and not e.keywords:
+        e = e.args[0]
+    return e
+
 
 def _leaf(e: ast.AST) -> tuple[tuple[str, str], bool] | None:
     """(atom, polarity) of a test that is not a not/and/or; None for a constant"""
     if isinstance(e, ast.Compare) and len(e.ops) == 1 and isinstance(e.comparators[0], ast.Constant) and e.comparators[0].value is None and \
             isinstance(e.ops[0], (ast.Is, ast.IsNot, ast.Eq, ast.NotEq)):
         return ("none", norm(e.left)), isinstance(e.ops[0], (ast.Is, ast.Eq))
+    if isinstance(e, ast.Compare) and len(e.ops) == 1 and isinstance(e.ops[0], (ast.Eq, ast.NotEq)) and _is_empty_literal(e.comparators[0]):
+        return ("empty", norm(e.left)), isinstance(e.ops[0], ast.Eq)
     return ("truthy", norm(e)), True
 
 
+def _is_empty_literal(e: ast.AST) -> bool:
+    """`""`, `0`, `[]`, `{}`, `()`: a value that is falsy and is not None"""
+    if isinstance(e, ast.Constant):
+        return e.value is not None and not isinstance(e.value, bool) and not e.value
+    return (isinstance(e, (ast.List, ast.Tuple, ast.Set)) and not e.elts) or (isinstance(e, ast.Dict) and not e.keys)
+
+
 def _atoms(e: ast.AST, out: list) -> None:
+    e = _unbool(e)
     if isinstance(e, ast.BoolOp):
         for v in e.values:
             _atoms(v, out)
@@ -1501,6 +1910,7 @@ def _atoms_of(e: ast.AST) -> list:
 
 
 def _holds(e: ast.AST, asg: dict) -> bool:
+    e = _unbool(e)
     if isinstance(e, ast.BoolOp):
         vals = [_holds(v, asg) for v in e.values]
         return all(vals) if isinstance(e.op, ast.And) else any(vals)
@@ -1524,6 +1934,8 @@ def _models(conds: tuple[Cond, ...], extra: list) -> Any:
         asg = dict(zip(atoms, vals))
         if any(k == "none" and v and asg.get(("truthy", x)) for (k, x), v in asg.items()):
             continue
+        if any(k == "empty" and v and (asg.get(("truthy", x)) or asg.get(("none", x))) for (k, x), v in asg.items()):
+            continue  # X == "" (0, [], ...): X is falsy and is not None
         if all(_holds(e, asg) == pol for e, pol in conds):
             yield asg
 
@@ -1546,6 +1958,14 @@ def implies(conds: tuple[Cond, ...], atom: tuple[str, str], value: bool) -> bool
         return all(asg[atom] == value for asg in _models(conds, [atom]))
     except _TooManyAtoms:
         return False
+
+
+def possible(conds: tuple[Cond, ...], fixed: dict[tuple[str, str], bool]) -> bool:
+    """can the path be taken with the given atoms having the given values?  Undecided counts as yes."""
+    try:
+        return any(all(asg[a] == v for a, v in fixed.items()) for asg in _models(conds, list(fixed)))
+    except _TooManyAtoms:
+        return True
 
 
 def conds_text(conds: tuple[Cond, ...]) -> str:
